@@ -134,7 +134,7 @@ def run(ctx):
     ctx.lake_build(["Babylon.Properties.C07"])
     ctx.audit("Babylon.Properties.C07")
     if not ctx.quick:
-        ctx.leanchecker(["Babylon.Exec.Model", "Babylon.Properties.C07"])
+        ctx.leanchecker(["Babylon.Exec.Model", "Babylon.Exec.View", "Babylon.Properties.C07"])
     drv = ctx.driver("drv_C07")
     exe, log = build_vrt_exe("c07", SRCS, repo_cpp=REPO_CPP)
     if exe is None:
